@@ -274,6 +274,17 @@ impl QueryEngine {
         Ok(self.ctx.sql_with_options(sql, options).await?)
     }
 
+    /// Plan a statement outside `with_metrics_table` (pruning pre-pass, ANALYZE, PREPARE).
+    ///
+    /// Re-binding `metrics` de-registers the table before it registers the new one, and both
+    /// happen under the registration lock: planning under the same lock never resolves the
+    /// name in between, where a request on another worker thread would be answered with
+    /// "table 'metrics' not found".
+    async fn plan_unbound(&self, sql: &str) -> Result<DataFrame> {
+        let _guard = self.metrics_table_query_lock.lock().await;
+        self.plan_read_only(sql).await
+    }
+
     /// Execute a SQL query
     pub async fn execute(&self, sql: &str) -> Result<Vec<RecordBatch>> {
         let df = self.plan_read_only(sql).await?;
@@ -392,7 +403,7 @@ impl QueryEngine {
 
     /// Extract time range from a SQL query by analyzing the logical plan
     pub async fn extract_time_range(&self, sql: &str) -> Result<TimeRange> {
-        let df = self.plan_read_only(sql).await?;
+        let df = self.plan_unbound(sql).await?;
 
         // Bounds every selected row must satisfy (None = unbounded on that side)
         let (min_time, max_time) = Self::extract_time_bounds(df.logical_plan());
@@ -604,7 +615,7 @@ impl QueryEngine {
         &self,
         sql: &str,
     ) -> Result<Vec<crate::metadata::predicates::ColumnPredicate>> {
-        let df = self.plan_read_only(sql).await?;
+        let df = self.plan_unbound(sql).await?;
         let plan = df.logical_plan();
 
         let mut predicates = Vec::new();
@@ -767,7 +778,7 @@ impl QueryEngine {
 
     /// Analyze a query without executing
     pub async fn analyze(&self, sql: &str) -> Result<datafusion::logical_expr::LogicalPlan> {
-        let df = self.plan_read_only(sql).await?;
+        let df = self.plan_unbound(sql).await?;
         Ok(df.logical_plan().clone())
     }
 
@@ -778,7 +789,7 @@ impl QueryEngine {
 
         // In a full implementation, we'd cache the logical plan
         // For now, just validate the SQL
-        let _ = self.plan_read_only(sql).await?;
+        let _ = self.plan_unbound(sql).await?;
 
         Ok(handle)
     }
